@@ -1,4 +1,5 @@
 PROPERTY = {'id': 'C09',
+ 'extra': ['bounded.run_corpus.run'],
  'contract_modules': ['doctest_example', 'util_stream', 'checker', 'doctest_part', 'runner'],
  'functions': ['xdoctest.doctest_example:DocTest.run',
                'xdoctest.doctest_example:DocTest.failed_line_offset',
@@ -31,6 +32,7 @@ PROPERTY = {'id': 'C09',
                    'invariant of the traceback scan); the "could not clean traceback" ValueError is unreachable',
                    'failed_line_offset / failed_lineno arithmetic (shared with C08)',
                    "_run_examples: given run's contract the loop body cannot leave by an Exception, so every gathered doctest is run and summarised"],
+             'B': ['the real parser and DocTest.run on every sequence of 1..2 (thorough 3) statement templates plus random longer ones, each run twice, against an oracle written from the property statements: executed statements and their order, verdict, recorded exception and failing part, logged output, renderable report, stdout restored, second run identical, module global untouched (bounded/run_corpus.py)'],
              'T': ['compile / exec / eval / asyncio.run as oracles (pyvc/models_run.py): return a value or raise any class, write to the current '
                    'sys.stdout, may rebind sys.stdout, bind names in the dict they are given',
                    'CPython: an exception raised while running code compiled with filename F has a traceback entry of F',
